@@ -27,7 +27,7 @@ CONSTANTS MaxActs,
           ArglessMacros,\* names of macros without arguments usable as single-token arguments
           Features,     \* subset of {"group","math","display","comment","par","space","fault","commenteof","argtoken"}
           Faults,       \* set of fault token texts (sequences of code points)
-          DiscardMacros \* names of macros whose conversion to text discards them with their arguments (C12 markers)
+          DiscardMacros \* names of macros / environments whose conversion to text discards them with their arguments and body (C12 markers)
 
 VARIABLES src, stk, last, forbid, forbidnow, n, mk, done, faulted
 vars == <<src, stk, last, forbid, forbidnow, n, mk, done, faulted>>
@@ -40,7 +40,7 @@ InArgs == Top.k \in {"call", "envcall"} /\ Len(Top.args) < Len(Top.sig)
 Slot == Top.sig[Len(Top.args) + 1]
 CanContent == ~InArgs /\ Top.k # "call"
 InMath == \E i \in 1..Len(stk) : stk[i].k = "math" \/ (stk[i].k \in {"env", "envcall"} /\ stk[i].bodykind = "math")
-InDiscard == \E i \in 1..Len(stk) : stk[i].k = "call" /\ stk[i].name \in DiscardMacros
+InDiscard == \E i \in 1..Len(stk) : stk[i].k \in {"call", "env", "envcall"} /\ stk[i].name \in DiscardMacros
 AddChild(c) == [stk EXCEPT ![Len(stk)].body = Append(@, c)]
 Letter(c) == c \in (65..90) \cup (97..122)
 
@@ -133,6 +133,7 @@ Call(m) == /\ CanContent
            /\ UNCHANGED mk
 BeginEnv(e) == /\ CanContent /\ ~(InMath /\ e[3] = "math") /\ e[3] # "legacyverb"
                /\ (e[3] = "math" => ~InDiscard)
+               /\ (e[1] \in DiscardMacros => ~InMath /\ e[3] # "math")
                /\ Write(<<92, 98, 101, 103, 105, 110, 123>> \o e[1] \o <<125>>,
                         Settle(Append(stk, F("envcall", e[1], e[2], <<Len(src)>>, e[3]))), "sym")
                /\ UNCHANGED mk
